@@ -482,6 +482,9 @@ def around(a, decimals=0, out=None):
     )
     if getattr(out, "units", None) is not None:
         out.units = ret_units
+    if np.ndim(res) == 0:
+        # a 0-d out buffer
+        return unyt_quantity(res, ret_units, bypass_validation=True)
     return unyt_array(res, ret_units, bypass_validation=True)
 
 
@@ -979,6 +982,9 @@ def choose(a, choices, out=None, *args, **kwargs):
     )
     if getattr(out, "units", None) is not None:
         out.units = retu
+    if np.ndim(res) == 0:
+        # a 0-d out buffer
+        return unyt_quantity(res, retu, bypass_validation=True)
     return unyt_array(res, retu, bypass_validation=True)
 
 
@@ -1092,6 +1098,9 @@ def clip_impl(a, a_min, a_max, out=None, *args, **kwargs):
     )
     if getattr(out, "units", None) is not None:
         out.units = a.units
+    if np.ndim(res) == 0:
+        # a 0-d out buffer
+        return unyt_quantity(res, a.units, bypass_validation=True)
     return unyt_array(res, a.units, bypass_validation=True)
 
 
